@@ -7,13 +7,17 @@ import subprocess
 import tempfile
 import time
 
-CONTRACT_MODULES = ['c05_nests', 'c05_logit', 'c05c_nodes', 'c05c_builders']
+CONTRACT_MODULES = ['c05_nests', 'c05_logit', 'c05c_nodes', 'c05c_builders', 'c05c_nested']
 LEVEL = 'other'
 TRUSTED = ['pyvc (VC generator, Python semantics of the stated subset)', 'z3 5.1.0 / cvc5',
            'mpmath 30-digit arithmetic and sympy differentiation (checking half of the translation validation)',
            'SEM: per-class semantics of the expression classes used by the checking half (validated at every point '
            'against the real Python evaluator and, for a subset, the compiled engine)',
-           'textbook closed forms of logit / nested / cross-nested / ordered models written in bounded/c05_tv.py']
+           'textbook closed forms of logit / nested / cross-nested / ordered models written in bounded/c05_tv.py',
+           'engine extension pyvc/libext/c05c_tree.py (nodes built inside comprehensions of symbolic length as terms mk!K(args) '
+           'governed by the verified constructor contracts; NamedTuple._replace; isinstance with a tuple of classes; iteration '
+           'over an object through its __iter__; set enumeration; hypothesis-subset discharge strategy) and the spec functions of '
+           'specs/c05c_specs.py (value function, dispatch link, cut rule, nest sum)']
 ASSUMPTIONS = ['A-REAL: floats are mathematical reals (native values are compared with 1e-8 relative / 1e-11 absolute tolerance)',
                'LIBSPEC: numpy.exp / numpy.log are uninterpreted over the reals with exp > 0 and log(0) = -inf (pyvc/libext/c05_loginf.py)',
                'Expression.get_value of an operand is a pure function of the operand (abstract contract, trusted, not verified here)',
@@ -23,7 +27,21 @@ ASSUMPTIONS = ['A-REAL: floats are mathematical reals (native values are compare
                "the engine's normal cdf is an approximation (absolute error about 3e-11): ordered probit through the engine is "
                'compared to 1e-9 absolute; in the far tails the engine can return probabilities like -1.5e-11',
                'the finite-sum facts sum_i e^{h_i}/sum_j e^{h_j} = 1, each term in [0,1], shift invariance are proved in Lean '
-               '(lean/C05Lemmas.lean, thorough tier) over the specification, not over the code']
+               '(lean/C05Lemmas.lean, thorough tier) over the specification, not over the code',
+               'builder semantics (contracts/c05c_*.py): expression nodes are immutable once built, so that the value of a node is a '
+               'function of the node (static obligation: the builders store to no attribute; frame obligations modifies=[])',
+               'DISPATCH LINK: the value of a node whose class K is known is what K.get_value returns (its verified contract is '
+               'instantiated at the node); behavioural subtyping for the abstract Expression.get_value',
+               'LEMMA sum-congruence (induction, not proved here): two sums over the same range with pointwise equal terms are equal; '
+               'the pointwise premise is always a proof obligation',
+               'operator overloads / validate_and_convert are applied as PURE contracts (the node they build is a function of the '
+               'operands: allocation abstracted; identity of two separately built nodes is not modelled)',
+               'builder semantics covers dictionaries of Expression objects and Expression nest parameters of non-zero value; plain '
+               'numbers in the dictionaries / float nest parameters stay with the bounded translation validation',
+               'ASSUMED (bounded stand-in C05:bounded:nests:...): NestsForNestedLogit.check_partition accepts only pairwise disjoint '
+               'nests that do not meet `alone`',
+               'products of two symbolic reals in get_mev_for_nested / lognested / nested are uninterpreted (commutative rmul): the '
+               'obligations are equalities of terms; exp(-log s) = 1/s and exp(-inf) = 0 are not used']
 EXPLANATION = ('Deductive part: the log-logit kernel LogLogit.get_value (availability filter, log-sum-exp, unavailable chosen '
                'alternative) and OneNestForNestedLogit.intersection are proved against contracts for all inputs; the probability '
                'versions are shown by AST analysis to be exp(.) of the log versions.  Bounded part (shape-bounded translation '
@@ -31,10 +49,20 @@ EXPLANATION = ('Deductive part: the log-logit kernel LogLogit.get_value (availab
                'to the bound, the real trees are serialised, evaluated through per-class semantics in 30-digit arithmetic and '
                'compared with independent textbook formulas: probabilities in [0,1], sum to one, zero when unavailable, shift '
                'invariance, log version = log of the probability version; the real Python evaluator and the compiled engine are '
-               'compared with the semantics at every point.')
+               'compared with the semantics at every point.  Round 2 (contracts/c05c_*.py): a DEDUCTIVE builder semantics for every '
+               'number of alternatives and nests: the value c05c_val(e) of a tree is the abstract Expression.get_value; the node '
+               'constructors, the operator overloads, validate_and_convert, bioMultSum, ConditionalSum and the LogLogit constructors are '
+               'verified on their real bodies (value of the new node = defining equation over the numeric meaning of the arguments); '
+               'models.loglogit, logmev, mev are proved to return a tree whose value is the textbook log-sum-exp kernel written with '
+               'sum_range over the dictionaries (logit: exp of a log-logit node on the same dictionaries), get_mev_for_nested to return '
+               'for every nest q and alternative i of it a tree of value (mu_q-1)V_i + (1/mu_q-1) log sum_{j in q, av_j != 0} exp(mu_q V_j) '
+               'and 0 for the alternatives left alone, and lognested / nested to compose (every alternative has a generating term).')
 LEVEL_TEXT = ('Mixed: deductive proof (all inputs) for the log-logit kernel and the static exp-of-log obligations; the model builders '
               '(nested, cross-nested, MEV, ordered) are decided by shape-bounded translation validation on the real code, labelled '
-              'bounded and never counted as proved.')
+              'bounded and never counted as proved.  Round 2: logit / loglogit / logmev / mev / get_mev_for_nested (and the composition '
+              'in lognested / nested) are additionally proved for all shapes as term equalities over uninterpreted exp / log; '
+              'cross-nested, the mu variants, ordered models and the numeric clauses (unit interval, sum to one, shift invariance) '
+              'remain bounded.')
 LEVEL_NOTE = ('Trusted: pyvc, z3/cvc5, mpmath/sympy, the SEM table and the textbook formulas; bounded checks cover <= 4 alternatives, '
               '<= 3 nests, <= 5 ordered levels (thorough: 6 / 4 / 7) at random points only.')
 TECHNIQUE = 'contract-based deductive verification (AST -> VCs -> z3/cvc5) + shape-bounded translation validation of the real builders'
@@ -287,7 +315,13 @@ def nests_extra(prop, mode, name, tier):
                              'alternatives' + ('' if tier == 'quick' else ' (also 2 and 4 alternatives)') + ', nested and cross-nested')]
 
 
+def c05c_extras():
+    """round 2: static obligations supporting the deductive builder semantics (specs/c05c_static.py)"""
+    from specs.c05c_static import extras
+    return extras()
+
+
 def extra(tier, seed):
-    return (static_extras() + lean_extra(tier)
+    return (static_extras() + c05c_extras() + lean_extra(tier)
             + nests_extra('C05', 'partition', 'C05:bounded:nests:accepted-structures-are-partitions-and-alone-is-the-complement', tier)
             + tv_extras('C05', tier, seed, EXPECTED))
